@@ -166,6 +166,36 @@ fn gen_varint_bytes(r: &mut Rng) -> Vec<u8> {
     }
 }
 
+/// directed inet addresses: a 16-byte value must stay 16 bytes whatever it "means"
+pub const INET_DIRECTED: [&[u8]; 12] = [
+    &[0, 0, 0, 0, 0, 0, 0, 0, 0, 0, 0xff, 0xff, 1, 2, 3, 4],             // IPv4-mapped ::ffff:1.2.3.4
+    &[0, 0, 0, 0, 0, 0, 0, 0, 0, 0, 0xff, 0xff, 0, 0, 0, 0],             // ::ffff:0.0.0.0
+    &[0, 0, 0, 0, 0, 0, 0, 0, 0, 0, 0xff, 0xff, 255, 255, 255, 255],     // ::ffff:255.255.255.255
+    &[0, 0, 0, 0, 0, 0, 0, 0, 0, 0, 0, 0, 1, 2, 3, 4],                   // IPv4-compatible ::1.2.3.4
+    &[0; 16],                                                             // ::
+    &[0, 0, 0, 0, 0, 0, 0, 0, 0, 0, 0, 0, 0, 0, 0, 1],                   // ::1
+    &[0xff; 16],                                                          // all ones
+    &[0x00, 0x64, 0xff, 0x9b, 0, 0, 0, 0, 0, 0, 0, 0, 1, 2, 3, 4],       // NAT64 64:ff9b::1.2.3.4
+    &[0x20, 0x02, 1, 2, 3, 4, 0, 0, 0, 0, 0, 0, 0, 0, 0, 0],             // 6to4
+    &[0, 0, 0, 0],                                                        // 0.0.0.0
+    &[255, 255, 255, 255],                                                // 255.255.255.255
+    &[127, 0, 0, 1],
+];
+pub fn gen_inet(r: &mut Rng) -> std::net::IpAddr {
+    match r.below(10) {
+        0..=3 => inet_of(INET_DIRECTED[r.below(INET_DIRECTED.len() as u64) as usize]).unwrap(),
+        4 => {
+            // random IPv4-mapped
+            let mut b = vec![0u8; 10];
+            b.extend([0xff, 0xff]);
+            b.extend(r.bytes(4));
+            inet_of(&b).unwrap()
+        }
+        5 | 6 => inet_of(&r.bytes(4)).unwrap(),
+        _ => inet_of(&r.bytes(16)).unwrap(),
+    }
+}
+
 pub fn gen_native_value(r: &mut Rng, n: &NativeType) -> CqlValue {
     match n {
         NativeType::Ascii => {
@@ -215,10 +245,7 @@ pub fn gen_native_value(r: &mut Rng, n: &NativeType) -> CqlValue {
         NativeType::Int => CqlValue::Int(boundary_i(r, 32) as i32),
         NativeType::BigInt => CqlValue::BigInt(boundary_i(r, 64) as i64),
         NativeType::Timestamp => CqlValue::Timestamp(CqlTimestamp(boundary_i(r, 64) as i64)),
-        NativeType::Inet => {
-            let b = if r.bool() { r.bytes(4) } else { r.bytes(16) };
-            CqlValue::Inet(inet_of(&b).unwrap())
-        }
+        NativeType::Inet => CqlValue::Inet(gen_inet(r)),
         NativeType::SmallInt => CqlValue::SmallInt(boundary_i(r, 16) as i16),
         NativeType::TinyInt => CqlValue::TinyInt(boundary_i(r, 8) as i8),
         NativeType::Time => CqlValue::Time(CqlTime(match r.below(8) {
@@ -469,6 +496,41 @@ fn main() {
         for c in ["empty", "null", "unset"] {
             emit(&mut out, format!("R {} {}", name, c));
         }
+    }
+
+    // fixed part: directed inet addresses (IPv4-mapped / -compatible, ::, ::1, all ones, v4 extremes) through the
+    // dynamic path, the typed carriers and nested positions
+    for b in INET_DIRECTED.iter() {
+        let v = format!("inet:{}", hex_bytes(b));
+        emit(&mut out, format!("R inet {}", v));
+        emit(&mut out, format!("R L(inet) list({};{})", v, v));
+        emit(&mut out, format!("R S(inet) set({})", v));
+        emit(&mut out, format!("R M(inet;inet) map({}={})", v, v));
+        emit(&mut out, format!("R T(int;inet) tuple(null;{})", v));
+        emit(&mut out, format!("R U(6b;75;61:inet;62:int) udt(6b;75;61={})", v));
+        emit(&mut out, format!("R V(inet;2) vector({};{})", v, v));
+        for carrier in ["IpAddr", "Option<IpAddr>", "MaybeEmpty<IpAddr>", "CqlValue", "Option<CqlValue>"] {
+            emit(&mut out, format!("T {} inet {}", carrier, v));
+        }
+        emit(&mut out, format!("T Vec<IpAddr> L(inet) list({})", v));
+        emit(&mut out, format!("T Vec<IpAddr> V(inet;1) vector({})", v));
+        emit(&mut out, format!("T Vec<CqlValue> L(inet) list({})", v));
+        emit(&mut out, format!("T (CqlValue,Option<CqlValue>) T(inet;inet) tuple({};{})", v, v));
+    }
+    // fixed part: long payloads (3-byte vint element lengths, >= 16 384 bytes) and wide collections, once per run
+    {
+        let big = |n: usize, r: &mut Rng| hex_bytes(&r.bytes(n));
+        let (b1, b2, b3) = (big(16384, &mut r), big(16383, &mut r), big(20000, &mut r));
+        emit(&mut out, format!("R V(blob;3) vector(blob:{};blob:{};blob:{})", b1, b2, b3));
+        emit(&mut out, format!("T Vec<Vec<u8>> V(blob;2) vector(blob:{};blob:{})", b1, b3));
+        let txt: String = (0..16500).map(|i| (b'a' + (i % 26) as u8) as char).collect();
+        emit(&mut out, format!("R V(text;2) vector(text:{};text:-)", hex_bytes(txt.as_bytes())));
+        let many: Vec<String> = (0..300).map(|i| format!("int:{}", hex_i((i * 7919 - 1000) as i128))).collect();
+        emit(&mut out, format!("R L(int) list({})", many.join(";")));
+        emit(&mut out, format!("R V(int;12c) vector({})", many.join(";")));
+        emit(&mut out, format!("T Vec<i32> V(int;12c) vector({})", many.join(";")));
+        let kv: Vec<String> = (0..260).map(|i| format!("int:{}=text:{}", hex_i(i as i128), hex_bytes(format!("v{}", i).as_bytes()))).collect();
+        emit(&mut out, format!("R M(int;text) map({})", kv.join(";")));
     }
 
     for _ in 0..a.n {
